@@ -471,3 +471,27 @@ PROPS["C13"] = {
     ],
     "min_nontrivial": {"quick": 5000, "thorough": 100000},
 }
+
+PROPS["C19"] = {
+    "level": "exploration",
+    "design_ref": "DESIGN.md §4.19",
+    "technique": "rapid-generated statement sets on 2-16 goroutines under the Go race detector (happens-before analysis of the executed accesses) + per-goroutine result equals sequential result; GOMAXPROCS and repeat counts drawn",
+    "level_text": "Stress exploration, not schedule enumeration: rapid draws 2-16 statements of all plan kinds (aggregate and alias statements, which mutate their own "
+                  "AST and context, are favoured; one statement in four is repeated on a second goroutine), GOMAXPROCS in {1,2,4,16} and 1-4 repeats. Each "
+                  "goroutine parses, plans and drains its own statement with its own ExecuteCtx; readers share one mutex-protected frozen store, every "
+                  "writing statement gets a private copy. The check binary is built with -race: any report fails the run (the race detector reports "
+                  "unsynchronised conflicting accesses regardless of whether the interleaving produced a wrong value, so shared mutable library state is "
+                  "found as soon as two goroutines touch it once). Each goroutine's rows, error and resulting store must equal what the same statement "
+                  "produced in a preceding sequential run.",
+    "level_note": "The harness does not own the Go scheduler: schedules are sampled. A value-level interference that needs one rare interleaving and involves no "
+                  "data race can be missed. Package switches (PlanBatchSize, EnableFieldCache) are set before the goroutines start and only read afterwards. "
+                  "A race failure is not shrinkable; the statement set is written as the replay.",
+    "rule": "rapid statement sets x GOMAXPROCS x repeats. Non-trivial = at least 2 goroutines and at least 2 of the statements are aggregate or alias "
+            "statements; distinct = distinct (statement set, modes, GOMAXPROCS, store).",
+    "assumptions": COMMON_ASSUMPTIONS + ["the Go race detector's happens-before analysis is trusted"],
+    "legs": [
+        {"test": "TestC19", "kind": "rapid", "race": True, "quick": {"checks": 150, "shards": 4, "shrink": "10s"}, "thorough": {"checks": 4000, "shards": 8}},
+    ],
+    "min_nontrivial": {"quick": 200, "thorough": 5000},
+    "timeout": {"quick": 900, "thorough": 7200},
+}
